@@ -135,7 +135,7 @@ fn c14_part(differential: bool) -> PartResult {
                 if uuid && recursive {
                     continue;
                 }
-                let spec = sl::WorldSpec { n: 3, marked: *marked, pa: *pa, pb: *pb, link: link.clone(), link2: link2.clone(), uuid, recursive, fmt, perm: vec![], emptied, explicit_ids: uuid || (*pa & 1 == 1), deferred_src: *marked & 1 == 1 };
+                let spec = sl::WorldSpec { n: 3, marked: *marked, pa: *pa, pb: *pb, link: link.clone(), link2: link2.clone(), uuid, recursive, fmt, perm: vec![], emptied, explicit_ids: uuid || (*pa & 1 == 1), deferred_src: *marked & 1 == 1, src_history: *marked & 1 == 0 && !(uuid || (*pa & 1 == 1)) };
                 let a = sl::run_spec(&spec);
                 n += 1;
                 if let Ok(t) = &a {
